@@ -189,7 +189,9 @@ class Contract:
         self.file = None
         self.line = 0
         self.locals = {}         # declared kinds for locals that cannot be inferred
+        self.ghosts = {}         # ghost parameters, bound by name from the caller's scope
         self.exposes = {}        # callee locals visible in postconditions (skolem constants at call sites)
+        self.finally_ = []       # ('check'|'hint', expr, text) evaluated at every return before the postconditions
         self.inline = False      # tiny wrapper: executed inline at call sites instead of by contract
 
     def param_names(self):
@@ -228,7 +230,9 @@ def parse_contracts(path):
         if deco is None:
             continue
         kindname = deco.func.id
-        qual = ast.literal_eval(deco.args[0]) if deco.args else 'lemma.' + node.name
+        qual = ast.literal_eval(deco.args[0]) if deco.args else node.name
+        if kindname == 'lemma':
+            qual = 'lemma.' + qual
         c = Contract(qual)
         c.file, c.line = path, node.lineno
         c.assumed = kindname == 'assumed'
@@ -282,6 +286,11 @@ def _spec_stmt(st, c):
         elif fn == 'local':
             for kw in st.value.keywords:
                 c.locals[kw.arg] = parse_kind(ast.literal_eval(kw.value))
+        elif fn in ('finally_check', 'finally_hint'):
+            c.finally_.append((fn[8:], a[0], _txt(a[0])))
+        elif fn == 'ghost':
+            for kw in st.value.keywords:
+                c.ghosts[kw.arg] = parse_kind(ast.literal_eval(kw.value))
         elif fn == 'exposes':
             for kw in st.value.keywords:
                 c.exposes[kw.arg] = parse_kind(ast.literal_eval(kw.value))
